@@ -72,7 +72,7 @@ func TestC13(t *testing.T) {
 		crashPart(t, r, tmp)
 	}
 	r.Require("payloads_checked", "restarts_from_payload", "fileclient_checks", "flush_after_lookup", "flush_after_poll", "flush_on_shutdown",
-		"fuzz_certainly_valid", "fuzz_certainly_invalid", "fuzz_grey", "cache_write_failures", "parked_write_cases", "crash_points", "io_errors_injected", "steps_with_stale_pinned_secrets", "restarts_from_real_cache_files", "failed_initial_cache_writes", "quiet_polls_after_a_failed_cache_write")
+		"fuzz_certainly_valid", "fuzz_certainly_invalid", "fuzz_grey", "cache_write_failures", "parked_write_cases", "crash_points", "io_errors_injected", "steps_with_stale_pinned_secrets", "restarts_from_real_cache_files", "failed_initial_cache_writes", "start_ups_with_unreadable_cache", "writes_after_a_killed_write", "quiet_polls_after_a_failed_cache_write")
 	r.Rule("histories: initial fetch, lookups, polls with/without service changes (some with failing cache writes), shutdown; after every step the last payload must be a complete document of exactly the known names with their current version+bytes, a new store started from it with a dead service must serve the same, and NewFileClient must agree on non-empty secrets. Fuzz: documents mutated around the valid format (bit flips, truncations, token splices, nulls, wrong types, duplicate/empty keys, case variants, nesting, invalid UTF-8). Crash part: every system call of FileCache.Write as kill point and as error point. Distinct = (step kind, flush expected?), fuzz (mutation, class, sources used), crash (syscall, fault)")
 }
 
@@ -142,6 +142,12 @@ func historyCase(t *testing.T, r *evid.Run, idx int, tmp string) {
 		}
 		return nil
 	}}
+	// now and then the cache cannot be READ at start-up (a transient I/O error): the store starts from the
+	// service, and goes on writing its cache like any other
+	if rng.IntN(10) == 1 {
+		cache.ReadErr = errors.New("injected: cache read failed")
+		r.Count("start_ups_with_unreadable_cache", 1)
+	}
 	// now and then the very first write (after the initial fetch) fails: a transient fault at start-up
 	initialFails := rng.IntN(10) == 0 && expiry == 0
 	failWrites = initialFails
